@@ -387,7 +387,11 @@ func runC01(env *Env) {
 			dsel = r.Intn(ntpl)
 			class = "multi-template"
 		}
-		fmt.Fprintf(&sb, "%s %s %d %d %d %d %d", c.transport, c.ipver, domain, tid, ntpl, dsel, nf)
+		trTok := c.transport
+		if class0 == "dtls-big" {
+			trTok = "dtlsbig" // same transport; marks messages beyond pion/dtls's 8192-byte receive buffer
+		}
+		fmt.Fprintf(&sb, "%s %s %d %d %d %d %d", trTok, c.ipver, domain, tid, ntpl, dsel, nf)
 		for _, ie := range ies {
 			fmt.Fprintf(&sb, " %d %d %d %d", ie.ElementId, ie.DataType, ie.EnterpriseId, ie.Len)
 		}
@@ -440,7 +444,7 @@ func runC01(env *Env) {
 				}
 			}
 			for i, c := range cfgs {
-				if c.transport == t[1] && c.ipver == t[2] {
+				if (c.transport == t[1] || (c.transport == "dtls" && t[1] == "dtlsbig")) && c.ipver == t[2] {
 					cases[i] = append(cases[i], kase{strings.Join(t[1:], " "), "replay"})
 				}
 			}
